@@ -78,13 +78,20 @@ int search_file_compare(const void* void_arg, const void* void_data)
 	/* read the block and compare the hash */
 	f = open(path, O_RDONLY | O_BINARY);
 	if (f == -1) {
+		/*
+		 * If the file is missing, just consider it as not matching.
+		 *
+		 * This happens also without any external action, because fix itself
+		 * renames a "file.unrecoverable" left by a previous run back to "file"
+		 * when it starts working on it, after it was listed here as candidate.
+		 * Aborting at this point would leave the damaged file with its
+		 * original name, without any report.
+		 */
+		if (errno == ENOENT)
+			return -1;
+
 		/* LCOV_EXCL_START */
-		if (errno == ENOENT) {
-			log_fatal("DANGER! file '%s' disappeared.\n", path);
-			log_fatal("If you moved it, please rerun the same command.\n");
-		} else {
-			log_fatal("Error opening file '%s'. %s.\n", path, strerror(errno));
-		}
+		log_fatal("Error opening file '%s'. %s.\n", path, strerror(errno));
 		exit(EXIT_FAILURE);
 		/* LCOV_EXCL_STOP */
 	}
